@@ -22,7 +22,7 @@ META = {
                   'the case table status x form x method x body sources x preset headers x interface x fault point; '
                   'every case of the table is executed on the real WSGI and ASGI apps and compared with the behaviour '
                   'TLC computed; random responses beyond the table are judged by TLC with the same clause operators.',
-    'level_note': 'Bounded: table of 4.6e4 (quick) / 1e6 (thorough) cases, <= 3 stream items (bytes, empty, None), SSE scripts '
+    'level_note': 'Bounded: table of 3.6e4 (quick) / 3.8e5 (thorough) cases, <= 3 stream items (bytes, empty, None), SSE scripts '
                   'of <= 4 items (events and None pings in every position); random leg <= 5 items, 18 status codes, 6 '
                   'methods. Extra headers carry str/int/float values through set_header, append_header, set_headers (dict '
                   'and pairs), a typed property, HTTPStatus(headers=) and (random leg) HTTPError(headers=). Stream/send fault points are explored for int-status, '
